@@ -9,9 +9,20 @@ Proved here (for every tree, no size bound):
   owner_interval  the weight-ordered descent used by GetBlockProof reaches that entry for every block 1..total
   owner_out_of_range  beyond the total weight there is no owner
 
+Histories (`ptRun ops` = the spec trie after any sequence of updates / deletes of n-nibble keys, `mapRun ops` = the
+finite map the same sequence denotes; `PT.insert` / `PT.delete` mirror trie.go case by case):
+
+  history_content   the entry list of the trie is exactly the live (key, value, weight) set, strictly sorted by key
+  history_weight    total weight = sum of the live weights, after every history
+  history_owner     owner of block b = the live key whose cumulative-weight interval in key order contains b
+  root_canon        the trie equals the independent construction `canonOf` from its live entries (hence so does its hash)
+  root_history_independent   two histories that denote the same map give the same trie and the same root hash
+
 See notes/C09.md for what ties these to the implementation-shaped model and what is checked by correspondence only.
 -/
 import Verif.Lemmas.WmptSpec
+import Verif.Lemmas.WmptRun
+import Verif.Lemmas.WmptCanon
 namespace Verif.Props.C09
 open Verif.Wmpt
 
@@ -58,6 +69,70 @@ theorem owner_interval (t : PT) (b : Nat) (hb : 1 ≤ b) (hw : b ≤ t.weight) :
 theorem owner_out_of_range (t : PT) (b : Nat) (h : t.weight < b) : ownerSpec t.entries b = none := by
   apply ownerSpec_none_of_gt
   rw [← weight_sum]; exact h
+
+/-! ### histories -/
+
+/-- every trie reachable by a history is reachable in the sense of `Reach` -/
+theorem run_reach (n : Nat) (ops : List Op) (hok : OpsOK n ops) : Reach n (ptRun ops) := by
+  unfold ptRun
+  have h : ∀ (l : List Op) (t : PT), Reach n t → (∀ op ∈ l, op.key.length = n) → Reach n (l.foldl ptStep t) := by
+    intro l
+    induction l with
+    | nil => intro t ht _; exact ht
+    | cons op tl ih =>
+      intro t ht hk
+      simp only [List.foldl_cons]
+      apply ih
+      · cases op with
+        | upd key v w => exact Reach.insert key v w ht (hk _ List.mem_cons_self)
+        | del key =>
+          simp only [ptStep]
+          cases hd : t.delete key with
+          | none => exact ht
+          | some t' => exact Reach.delete key ht (hk _ List.mem_cons_self) hd
+      · intro o ho; exact hk o (List.mem_cons_of_mem _ ho)
+  exact h ops _ Reach.empty hok
+
+/-- after any history the entry list is exactly the live set, in strictly increasing key order -/
+theorem history_content (n : Nat) (ops : List Op) (hok : OpsOK n ops) :
+    (∀ k v w, (k, v, w) ∈ (ptRun ops).entries ↔
+        ∃ key : List Nib, key.length = n ∧ k = key.map nb ∧ mapRun ops key = some (v, w)) ∧
+    ((ptRun ops).entries.map (·.1)).Pairwise bytesLt :=
+  ⟨run_entries hok, run_sorted ops⟩
+
+/-- total weight = sum of the weights of the live keys, after any history -/
+theorem history_weight (ops : List Op) : (ptRun ops).weight = entriesWeight (ptRun ops).entries := run_weight ops
+
+/-- block ownership after any history -/
+theorem history_owner (ops : List Op) (b : Nat) (hb : 1 ≤ b) (hw : b ≤ (ptRun ops).weight) :
+    (ptRun ops).owner b = ownerSpec (ptRun ops).entries b := run_owner ops b hb hw
+
+/-- the trie (and therefore its root hash) is the independent canonical construction from its live entries -/
+theorem root_canon (H : Bytes → Bytes) (n : Nat) (ops : List Op) (hok : OpsOK n ops) :
+    ptRun ops = canonOf n (ptRun ops).entriesN ∧ (ptRun ops).hash H = (canonOf n (ptRun ops).entriesN).hash H := by
+  obtain ⟨hu, hc⟩ := reach_uniform_canon (run_reach n ops hok)
+  exact ⟨eq_canonOf_entries hu hc, reach_hash_entries H (run_reach n ops hok)⟩
+
+/-- two histories that denote the same map yield the same trie, hence the same root hash, weight and owners -/
+theorem root_history_independent (H : Bytes → Bytes) (n : Nat) (ops₁ ops₂ : List Op) (h₁ : OpsOK n ops₁) (h₂ : OpsOK n ops₂)
+    (hm : ∀ q, mapRun ops₁ q = mapRun ops₂ q) :
+    ptRun ops₁ = ptRun ops₂ ∧ (ptRun ops₁).hash H = (ptRun ops₂).hash H := by
+  have : ptRun ops₁ = ptRun ops₂ :=
+    reach_unique (run_reach n ops₁ h₁) (run_reach n ops₂ h₂) (fun q hq => by
+      rw [run_lookup h₁ q hq, run_lookup h₂ q hq, hm])
+  exact ⟨this, by rw [this]⟩
+
+/-- non-vacuity of the history theorems: delete-then-reinsert and a different insertion order give the same trie -/
+example :
+    let a : List Nib := [1, 2]; let b : List Nib := [1, 7]; let c : List Nib := [4, 0]
+    let ops₁ : List Op := [.upd a [1] 2, .upd b [2] 3, .upd c [3] 1, .del b, .upd b [2] 3]
+    let ops₂ : List Op := [.upd c [3] 1, .upd b [9] 4, .upd b [2] 3, .upd a [1] 2]
+    OpsOK 2 ops₁ ∧ OpsOK 2 ops₂ ∧ (ptRun ops₁).entries = (ptRun ops₂).entries ∧ (ptRun ops₁).weight = 6 := by
+  refine ⟨?_, ?_, ?_, ?_⟩
+  · intro op hop; simp only [List.mem_cons, List.not_mem_nil, or_false] at hop; rcases hop with h | h | h | h | h <;> subst h <;> rfl
+  · intro op hop; simp only [List.mem_cons, List.not_mem_nil, or_false] at hop; rcases hop with h | h | h | h <;> subst h <;> rfl
+  · decide
+  · decide
 
 /-- non-vacuity: a branch over two short leaves of weight 2 and 3; block 3 belongs to the second key -/
 example :
